@@ -1082,11 +1082,61 @@ func (h *c20Hist) chainName(rp *c20Replica) string {
 	return "plain-chain"
 }
 
+// keptOlder attributes structurally one known way in which an agent of a compact journal
+// stays behind although everything was delivered: its upstream compact journal holds the
+// entity with the right content but under a version number OLDER than the source's latest
+// (applyUpdate skipped the newer event as "equal without version") and not newer than what
+// the agent already holds / has asked for, so the diff never contains it again.  That
+// happens after the aggregator restarted from an older journal file: it lost the
+// intermediate content Y it had once handed to the agent, holds X again, and the source's
+// newest X' is identical to X in compact form.
+func (h *c20Hist) keptOlder(rp *c20Replica) map[c20Key]bool {
+	if !rp.chainC || rp.up == nil || !rp.up.compact {
+		return nil
+	}
+	var out map[c20Key]bool
+	for _, k := range h.src.keys {
+		if k.typ == format.DashboardEvent || k.typ == format.PromConfigEvent {
+			continue
+		}
+		hist := h.src.hist[k]
+		latest := hist[len(hist)-1]
+		id := journalEventID{typ: k.typ, id: k.id}
+		eu, ok := rp.up.j.journal[id]
+		if !ok || eu.Version >= latest.Version {
+			continue // upstream did not keep an older version
+		}
+		if good, _ := h.acceptable(rp.up, eu.Event, hist); !good {
+			continue
+		}
+		got, have := rp.j.journal[id]
+		if have {
+			if good, _ := h.acceptable(rp, got.Event, hist); good || got.Version <= eu.Version {
+				continue
+			}
+		} else if eu.Version > rp.j.loaderVersion {
+			continue
+		}
+		if out == nil {
+			out = map[c20Key]bool{}
+		}
+		out[k] = true
+		what := "has no entry"
+		if have {
+			what = fmt.Sprintf("holds version %d (%q)", got.Version, got.Name)
+		}
+		h.bad("converge/compact-chain/restored-content-kept-at-older-version", fmt.Sprintf("replica %s %s for type %d id %d; its upstream compact journal %s holds the right content (%q) but under version %d, older than the source's latest %d (the newer event was skipped as equal without version) and not newer than what the replica has: it is never sent again",
+			rp.name, what, k.typ, k.id, rp.up.name, eu.Name, eu.Version, latest.Version), map[string]any{"replica": rp.name, "upstream": c20Brief(eu.Event), "latest": c20Brief(latest)})
+	}
+	return out
+}
+
 // checkConverged is the oracle at a sync point (every replica fetched until its upstream
 // had nothing more).
 func (h *c20Hist) checkConverged() {
 	s := h.src
 	h.nSync++
+	var attributed map[*c20Replica]bool
 	var refGroups []c20G
 	for _, g := range s.groups {
 		refGroups = append(refGroups, c20G{int32(g.id), g.spec.Name, g.spec.Disable})
@@ -1098,6 +1148,23 @@ func (h *c20Hist) checkConverged() {
 		if rp.observe {
 			h.observeSwitcher(rp)
 			continue
+		}
+		attr := h.keptOlder(rp)
+		if len(attr) > 0 {
+			if attributed == nil {
+				attributed = map[*c20Replica]bool{}
+			}
+			attributed[rp] = true
+		}
+		staleNames := map[string]bool{}
+		groupAttr := false
+		for k := range attr {
+			groupAttr = groupAttr || k.typ == format.MetricsGroupEvent
+			if k.typ == format.MetricEvent {
+				if m := rp.ms.GetMetaMetric(int32(k.id)); m != nil {
+					staleNames[m.Name] = true
+				}
+			}
 		}
 		// ---- journal level: exactly the source's latest version of every entity
 		want := 0
@@ -1112,6 +1179,9 @@ func (h *c20Hist) checkConverged() {
 				continue
 			}
 			want++
+			if attr[k] {
+				continue
+			}
 			if !ok {
 				h.bad("converge/"+chain+"/missing-entity", fmt.Sprintf("replica %s has no entry for type %d id %d (%q)", rp.name, k.typ, k.id, hist[len(hist)-1].Name), x)
 				continue
@@ -1125,7 +1195,7 @@ func (h *c20Hist) checkConverged() {
 			}
 			h.w.Count("converge.entities_compared", 1)
 		}
-		if len(rp.j.journal) != want {
+		if len(rp.j.journal) != want && len(attr) == 0 {
 			h.bad("converge/"+chain+"/extra-entity", fmt.Sprintf("replica %s has %d entries, the source has %d", rp.name, len(rp.j.journal), want), x)
 		}
 		if !rp.chainC && rp.j.currentVersion != s.j.currentVersion {
@@ -1139,6 +1209,9 @@ func (h *c20Hist) checkConverged() {
 			hist := s.hist[c20Key{format.MetricEvent, m.id}]
 			latest := hist[len(hist)-1]
 			name := m.spec.Name
+			if attr[c20Key{format.MetricEvent, m.id}] || staleNames[name] {
+				continue // reported once under the structural key above
+			}
 			got := ms.GetMetaMetric(int32(m.id))
 			if got == nil {
 				h.bad("storage/"+chain+"/metric-missing", fmt.Sprintf("replica %s storage has no metric %d (%q)", rp.name, m.id, name), x)
@@ -1171,7 +1244,7 @@ func (h *c20Hist) checkConverged() {
 			if best != "" {
 				h.w.Count("group.final_checked_user_group", 1)
 			}
-			if !c20Has(wantG, got.GroupID) {
+			if !c20Has(wantG, got.GroupID) && !groupAttr {
 				h.bad("group/final-wrong", fmt.Sprintf("replica %s metric %d %q has group %d, want %v (longest enabled prefix %q)", rp.name, m.id, name, got.GroupID, wantG, best), x)
 			}
 			// name lookup
@@ -1210,9 +1283,12 @@ func (h *c20Hist) checkConverged() {
 		nList := len(ms.metricsByName)
 		ms.mu.RUnlock()
 		for _, st := range stales {
+			if attr[c20Key{format.MetricEvent, int64(st.id)}] {
+				continue
+			}
 			h.bad("name-lookup/stale-entry", fmt.Sprintf("replica %s: name %q resolves to metric %d which does not hold that name", rp.name, st.name, st.id), x)
 		}
-		if nByID != nMetrics {
+		if nByID != nMetrics && len(attr) == 0 {
 			h.bad("storage/"+chain+"/extra-metric", fmt.Sprintf("replica %s storage has %d metrics, the source %d", rp.name, nByID, nMetrics), x)
 		}
 		if l := len(ms.GetMetaMetricList(true)); l != nList {
@@ -1221,6 +1297,9 @@ func (h *c20Hist) checkConverged() {
 		// groups and namespaces by id; by-name lookups of groups/namespaces are outside the
 		// statement (it speaks of metric lookups): counted, not judged
 		for _, g := range s.groups {
+			if attr[c20Key{format.MetricsGroupEvent, g.id}] {
+				continue
+			}
 			got := ms.GetGroup(int32(g.id))
 			hist := s.hist[c20Key{format.MetricsGroupEvent, g.id}]
 			if got == nil || got.Name != g.spec.Name || got.Disable != g.spec.Disable || got.Weight != g.spec.Weight || (!rp.chainC && got.Version != hist[len(hist)-1].Version) {
@@ -1232,6 +1311,9 @@ func (h *c20Hist) checkConverged() {
 			}
 		}
 		for _, n := range s.nss {
+			if attr[c20Key{format.NamespaceEvent, n.id}] {
+				continue
+			}
 			got := ms.GetNamespace(int32(n.id))
 			if got == nil || got.Name != n.spec.Name || got.Weight != n.spec.Weight || got.Disable != n.spec.Disable {
 				h.bad("storage/"+chain+"/namespace-differs", fmt.Sprintf("replica %s namespace %d: got %+v, source %+v", rp.name, n.id, got, n.spec), x)
@@ -1271,7 +1353,7 @@ func (h *c20Hist) checkConverged() {
 	// ---- state hashes: replicas of the same journal are identical
 	byChain := map[bool][]*c20Replica{}
 	for _, rp := range h.reps {
-		if !rp.observe {
+		if !rp.observe && !attributed[rp] { // a replica with an attributed stale entity cannot have the common hash
 			byChain[rp.chainC] = append(byChain[rp.chainC], rp)
 		}
 	}
@@ -1360,6 +1442,40 @@ func (h *c20Hist) setup() (c, c2 *c20Replica) {
 	sw := mk("Asw", false, true, c)
 	sw.observe = true
 	return c, c2
+}
+
+// c20ScriptedRestart: the single-chain form of the same phenomenon, judged like every
+// history: aggregator C saves, hands a rename to its agent, restarts from the (older) saved
+// file, and the source renames the metric back.
+func c20ScriptedRestart(r *verifkit.Run, w *verifkit.Worker) {
+	h := &c20Hist{r: r, w: w, rnd: rand.New(rand.NewPCG(3, 4)), index: -2}
+	c, _ := h.setup()
+	defer func() {
+		if p := recover(); p != nil {
+			h.bad("panic/scripted-restart", fmt.Sprint(p), nil)
+		}
+	}()
+	m := &c20Metric{id: 9, spec: format.MetricMetaValue{Name: "p_name"}}
+	h.src.metrics = append(h.src.metrics, m)
+	h.logOp("scripted: create metric 9 p_name, sync, save C")
+	h.emitMetric(m)
+	h.syncAll()
+	h.save(c)
+	h.logOp("scripted: rename metric 9 -> q_name, sync (agents hold q_name)")
+	m.spec.Name = "q_name"
+	h.emitMetric(m)
+	h.syncAll()
+	h.logOp("scripted: C restarts from the file saved before the rename")
+	img := c.image()
+	if err := h.open(c, img); err != nil {
+		h.bad("reload/intact-error", err.Error(), nil)
+	}
+	h.logOp("scripted: rename metric 9 back -> p_name, final sync")
+	m.spec.Name = "p_name"
+	h.emitMetric(m)
+	if h.syncAll() {
+		h.checkConverged()
+	}
 }
 
 // c20ScriptedSwitch: deterministic form of the one situation in which an agent that moves
@@ -1663,7 +1779,7 @@ func TestVerifC20(t *testing.T) {
 	if n-first < workers {
 		workers = 1
 	}
-	r.Parallel(1, "scripted", func(w *verifkit.Worker) { c20ScriptedSwitch(r, w) })
+	r.Parallel(1, "scripted", func(w *verifkit.Worker) { c20ScriptedSwitch(r, w); c20ScriptedRestart(r, w) })
 	seed := r.SubSeed("hist")
 	r.Parallel(workers, "hist", func(w *verifkit.Worker) {
 		for i := first + w.Index; i < n; i += workers {
